@@ -208,7 +208,7 @@ def run(chk):
     nx = 0
     text_funcs = [fi for fq, fi in sorted(ix.functions.items())
                   if fi.module.name in ('utils', 'factories') or
-                  (fi.module.name == 'base_datatypes' and fi.cls is not None and fi.cls.name in ('DT', 'TM', 'DTM', 'DateTimeDataType'))]
+                  (fi.module.name == 'base_datatypes' and ((fi.cls is None and fi.outer is None) or (fi.cls is not None and fi.cls.name in ('DT', 'TM', 'DTM', 'DateTimeDataType'))))]
     for fi in text_funcs:
         params = set(fi.params)
         # locals cut out of a parameter (slices, tuple results of the offset splitter) are text as well
